@@ -7,6 +7,8 @@ import Bolt.Driver.Cursor
 import Bolt.Driver.Batch
 import Bolt.Driver.Versions
 import Bolt.Driver.Check
+import Bolt.Driver.Reencode
+import Bolt.Driver.Compact
 open Bolt.Driver
 
 def main (args : List String) : IO UInt32 := do
@@ -19,6 +21,8 @@ def main (args : List String) : IO UInt32 := do
   | ["cursor"] => cmdCursor; return 0
   | ["batch"] => cmdBatch; return 0
   | ["versions"] => cmdVersions; return 0
+  | ["compactmodel", path, os, limit] => cmdCompactModel path (parseNat os) (parseNat limit); return 0
+  | ["reencode", path, os] => cmdReencode path (parseNat os); return 0
   | ["checkmodel", path, os, kind] => cmdCheckModel path (parseNat os) kind; return 0
   | ["api-verbose"] => cmdApi true; return 0
   | ["decode", path, os] => cmdDecode path (parseNat os) false; return 0
